@@ -26,6 +26,7 @@ ASSUMPTIONS = [
     "grids are built with Grid.from_topology from standard-form tables (C01 owns decoding)",
     "oracle is a set model over node-index pairs written in the harness",
 ]
+BOUNDS_NOTE = "plus an interpreted pass (NUMBA_DISABLE_JIT=1, spawned interpreters) over catalogue meshes and the subsets of one (quick) / four (thorough) of them"
 BOUNDS = {
     "quick": "(a) n_node<=5,n_face<=2,sizes 3..5, widths {exact, 6}; n_node<=4,n_face=3 at exact width; (b) 21 meshes, deviations<=1, all subsets of meshes with <=7 faces; (c) 120 orders x 4 meshes",
     "thorough": "(a) as quick plus n_node=6,n_face=2,sizes 3..6 and n_node<=4,n_face=3 at widths {exact,5}; (b) deviations<=2 on meshes <= 9 faces, all subsets of meshes with <=9 faces; (c) 120 orders x 8 meshes",
@@ -125,6 +126,15 @@ def _new():
 
 
 def run_case(case):
+    import os
+
+    if case.get("jit") == "off" and os.environ.get("NUMBA_DISABLE_JIT") != "1":
+        # interpreted numba kernels: a fresh interpreter with NUMBA_DISABLE_JIT=1 (the switch is read at import time)
+        from vf.core import subrun
+
+        r = subrun.run("vf.props.c02", [case], {"NUMBA_DISABLE_JIT": "1"}, nproc=1)[0]
+        r.pop("_case", None)
+        return _mark_jitoff(r)
     res = _new()
     kind = case["kind"]
     if kind == "scope":
@@ -209,9 +219,40 @@ def run_case(case):
     raise ValueError(kind)
 
 
+def jitoff_cases(tier):
+    quick = tier == "quick"
+    names = ["mixedpatch", "cubesplit", "pyr5", "isolated", "tetra"] if quick else list(meshes.catalog())
+    out = [{"kind": "mesh", "mesh": n, "k": 0 if quick else 1, "jit": "off"} for n in names]
+    out += [{"kind": "subsets", "mesh": n, "jit": "off"} for n in (["cubesplit"] if quick else ["cubesplit", "prism", "pyr5", "tetra"])]
+    return out
+
+
+def _mark_jitoff(r):
+    for v in r.get("violations", []):
+        if ":jit-off:" not in v["sig"]:
+            v["sig"] = v["sig"].replace("c02:", "c02:jit-off:", 1)
+            v["msg"] = "[NUMBA_DISABLE_JIT=1] " + v["msg"]
+        if isinstance(v.get("focus"), dict):
+            v["focus"]["jit"] = "off"
+    return r
+
+
 def run(ctx):
     ctx.map(run_case, cases(ctx.tier))
+    # the same tables with the numba kernels interpreted (NUMBA_DISABLE_JIT=1), in spawned interpreters
+    from vf.core import subrun
+
+    results = subrun.run("vf.props.c02", jitoff_cases(ctx.tier), {"NUMBA_DISABLE_JIT": "1"}, nproc=min(8, ctx.nproc))
+    n = 0
+    for r in results:
+        c = r.pop("_case")
+        ctx.add(c, _mark_jitoff(r))
+        n += r["evaluations"]
+    ctx.extra["jit_off_pass"] = {"cases": len(results), "evaluations": n}
     from vf.core.runner import Vacuous
 
     if not ctx.axes.get("scope_sizes") or len(ctx.axes["scope_sizes"]) < 4:
         raise Vacuous("size mixes not exercised")
+
+
+BOUNDS = {k: v + "; " + BOUNDS_NOTE for k, v in BOUNDS.items()}
